@@ -15,14 +15,14 @@ RULE = ('case = (1-4 messages, segmentation plan, optional truncation offset + F
         'one-byte-per-read windows and seeded random cuts. In 3 of 8 cases the stream is additionally produced through a transport whose send/sendmsg accept '
         'at most q in {1,3,4,5,64,4096} bytes per call (sendall completes, as the real one does): the bytes written must be the same. Non-trivial = the plan splits a 4-byte header or a body, or the '
         'truncation lies strictly inside a message; distinct = distinct (message sizes, absolute cut positions, truncation, end kind).')
-ASSUMPTIONS = ['socket.send / sendmsg may accept fewer bytes than given and report the count; sendall writes everything or raises', 'socket.recv(n) returns between 1 and n bytes while data remains, b"" at orderly EOF, raises ConnectionResetError on RST',
+ASSUMPTIONS = ['socket.send / sendmsg may accept fewer bytes than given and report the count; sendall writes everything or raises', 'socket.recv(n) returns between 1 and n bytes while data remains, b"" at orderly EOF, raises ConnectionResetError on RST, TimeoutError(ETIMEDOUT) when keep-alive finds the peer host dead, ConnectionAbortedError on a local abort',
                'payload values compare with == after a pickle round trip']
 SHRINK = 'hypothesis'
 SHRINK_EXAMPLES = 400
 TIME_BUDGET = {'quick': 120, 'thorough': 1500}
 REQUIRED = {
     'quick': {'hdr_1_3': 20, 'hdr_2_2': 20, 'hdr_3_1': 20, 'hdr_1_1_1_1': 20, 'body_split': 100, 'trunc_in_header': 20,
-              'trunc_in_body': 20, 'trunc_body_first': 5, 'trunc_body_last': 5, 'rst': 20, 'multi_message': 100, 'big_payload': 10, 'partial_writes': 2000},
+              'trunc_in_body': 20, 'trunc_body_first': 5, 'trunc_body_last': 5, 'rst': 20, 'multi_message': 100, 'big_payload': 10, 'partial_writes': 2000, 'length_around_64k_multiple': 90, 'end:timeout': 100, 'end:aborted': 100},
     'thorough': {'hdr_1_3': 200, 'hdr_2_2': 200, 'hdr_3_1': 200, 'hdr_1_1_1_1': 200, 'body_split': 1000, 'trunc_in_header': 200,
                  'trunc_in_body': 200, 'trunc_body_first': 50, 'trunc_body_last': 50, 'rst': 200, 'multi_message': 1000,
                  'big_payload': 100},
@@ -78,6 +78,10 @@ class ScriptedSocket:
                 raise SpinDetected()
             if self.end == 'rst':
                 raise ConnectionResetError(104, 'Connection reset by peer')
+            if self.end == 'timeout':
+                raise TimeoutError(110, 'Connection timed out')        # what TCP keep-alive reports when the peer host died
+            if self.end == 'aborted':
+                raise ConnectionAbortedError(103, 'Software caused connection abort')
             return b''
         while self._ci < len(self.cuts) and self.cuts[self._ci] <= self.pos:
             self._ci += 1
@@ -143,12 +147,19 @@ def strategy(tier):
         'cuts': st.lists(_cut, max_size=8),
         'all': st.sampled_from([0, 0, 0, 0, 1, 2, 3, 7]),   # k>0: additionally cut every k bytes (small streams only)
         'truncate': _trunc,
-        'end': st.sampled_from(['eof', 'eof', 'rst']),
+        'end': st.sampled_from(['eof', 'eof', 'eof', 'rst', 'rst', 'timeout', 'aborted']),
         'wq': st.sampled_from([None, None, 1, 3, 4, 5, 64, 4096]),    # bytes the sending transport accepts per write call
     })
 
 
 def exhaustive(tier, shard, nshards):
+    # serialised lengths around multiples of 64 KiB (every payload size from 40 below to 8 above the multiple), followed by a second message
+    idx = 0
+    for k in ((1, 2) if tier == 'quick' else (1, 2, 3, 4, 16)):
+        for n in range(65536 * k - 40, 65536 * k + 9):
+            idx += 1
+            if idx % nshards == shard:
+                yield {'messages': [{'bytes': n}, {'value': [1, 2]}], 'cuts': [], 'truncate': None, 'end': 'eof', 'boundary_64k': True}
     for wq in (1, 2, 3, 4, 5, 7, 8, 9, 64):
         if wq % nshards == shard:
             yield {'messages': [{'value': None}, {'bytes': 300}], 'cuts': [], 'truncate': None, 'end': 'eof', 'wq': wq}
@@ -268,8 +279,13 @@ def run_case(case, ctx):
                 out.label('trunc_at_boundary')
     if t is not None and case['end'] == 'rst':
         out.label('rst')
+    if t is not None and case['end'] in ('timeout', 'aborted'):
+        out.label('end:' + case['end'])
     if len(values) > 1:
         out.label('multi_message')
+    if case.get('boundary_64k'):
+        out.label('length_around_64k_multiple')
+        out.nontrivial = True
     if L > 65536:
         out.label('big_payload')
     if t is None:
